@@ -128,7 +128,51 @@ fn random_path(rng: &mut Rng, class: PathClass) -> String {
     }
 }
 
+/// A long history on one compiled expression: one render per device of a large installation
+/// (N just above a power of two, where a bounded cache would start to evict), then the early
+/// devices again. Exercises state that needs many calls to build up.
+fn many_devices_scenario(rng: &mut Rng, tier: Tier) -> Scenario {
+    let mut cfg = subject_cfg(rng, tier);
+    cfg.matchers = cfg.matchers.min(6);
+    cfg.unsupported = 0;
+    let subject = gen::expression(rng, &cfg);
+    let n = *rng.pick(&[17usize, 33, 65, 129, 257, 257, 300, 513, 1025]);
+    let style = rng.below(3);
+    let mut paths = vec![FIXED_PATH.to_string()];
+    for i in 0..n {
+        paths.push(match style {
+            0 => format!("/dev/mapper/lustre-MDT{i:04x}"),
+            1 => format!("/dev/disk/by-label/fs{}:MDT{i:04}", i % 7),
+            _ => format!("mdt{i}"),
+        });
+    }
+    let mut ops = vec![Op::Compile { subj: 0, slot: 0, script: vec![], twice: false }];
+    for i in 1..=n {
+        ops.push(Op::Render { slot: 0, path: i });
+        if rng.chance(1, 40) {
+            ops.push(Op::IoMap { slot: 0 });
+        }
+        if rng.chance(1, 60) {
+            ops.push(Op::SwitchThread { t: rng.usize_below(crate::hist::MAX_THREADS) });
+        }
+    }
+    // come back to devices seen long ago, and to recent ones
+    for _ in 0..rng.range(8, 40) {
+        let i = match rng.below(3) {
+            0 => rng.range(1, 4) as usize,
+            1 => n - rng.usize_below(4.min(n)),
+            _ => 1 + rng.usize_below(n),
+        };
+        ops.push(Op::Render { slot: 0, path: i });
+    }
+    ops.push(Op::IoMap { slot: 0 });
+    Scenario { subjects: vec![subject], paths, clock_start: CLOCK_FLOOR + rng.below(1 << 30), hash_seed: rng.next_u64(), ops }
+}
+
 pub fn scenario(rng: &mut Rng, tier: Tier) -> Scenario {
+    if rng.chance(1, 60) {
+        return many_devices_scenario(rng, tier);
+    }
     let n_subjects = rng.range(1, 3) as usize;
     let mut subjects = vec![];
     for i in 0..n_subjects {
